@@ -23,7 +23,10 @@ CONSTANTS
   FlushEntry = TRUE
   UnmapOnDrop = TRUE
   Linear = TRUE
+  AllowNested = FALSE
+  OthersCall = "never"
+  KeepPagesWritable = FALSE
   MaxLives = 2
-INVARIANT TypeOK Mutex HolderIsLock PrevSeesOrig OwnFakes FreeMeansOrig NoAbort Reusable Restored NoLeak
+INVARIANT NoFault TypeOK Mutex HolderIsLock PrevSeesOrig OwnFakes FreeMeansOrig NoAbort Reusable Restored NoLeak NoSelfDeadlock WX
 PROPERTY HandOver NoStuck
 CHECK_DEADLOCK FALSE
